@@ -557,3 +557,47 @@ def targeted(broken, disagreements, rng):
     cases = G.targeted_cases(rng)
     prime(cases)
     return cases
+
+
+# ------------------------------------------------------------------ shrinking
+_DEFAULT_CFG = {'cookie_name': 'auth_tkt', 'secure': False, 'include_ip': False, 'timeout': None, 'reissue_time': None,
+                'max_age': None, 'http_only': False, 'path': '/', 'wild_domain': True, 'parent_domain': False,
+                'domain': None, 'samesite': 'Lax'}
+
+
+def shrinks(case):
+    """Structured candidates: fewer ops, default configuration, plain request, simpler remember arguments."""
+    def w(**kw):
+        c = dict(case)
+        c.update(kw)
+        return c
+    ops = case['ops']
+    for i in range(len(ops)):
+        yield w(ops=ops[:i] + ops[i + 1:])
+    for k, dv in _DEFAULT_CFG.items():
+        if case['cfg'][k] != dv:
+            yield w(cfg=dict(case['cfg'], **{k: dv}))
+    if case.get('seam'):
+        yield w(seam=False)
+    if case.get('other_u') is not None:
+        yield w(other_u=None)
+    rq = case['req']
+    if rq['host'] != 'example.com':
+        yield w(req=dict(rq, host='example.com'))
+    if not case['cfg']['include_ip'] and rq['ip'] != '127.0.0.1':
+        yield w(req=dict(rq, ip='127.0.0.1'))
+    for i, op in enumerate(ops):
+        if op[0] == 1:
+            for cand in ([1, [0, 'bob'], None, []], [1, op[1], None, op[3]], [1, op[1], op[2], []]):
+                if cand != op:
+                    yield w(ops=ops[:i] + [cand] + ops[i + 1:])
+    ck = rq['cookie']
+    if ck:
+        n = hashlib.new(case['cfg']['hashalg']).digest_size * 2
+        tail = ck[n + 8:]
+        if len(tail) > 3 and tail != 'x!!':
+            yield w(req=dict(rq, cookie=ck[:n + 8] + 'x!!'))
+        for i in range(min(len(ck), n)):
+            if ord(ck[i]) < 128 and ck[i] != 'a':
+                yield w(req=dict(rq, cookie=ck[:i] + 'a' + ck[i + 1:]))
+                break
